@@ -1,6 +1,7 @@
 import CJ.Lemmas.CodecPath
 import CJ.Lemmas.Responder
 import CJ.Gen.C15Loop
+import CJ.Lemmas.Alive
 /-!
 # C15 — every encoder in the registration channels is inverted exactly by its decoder
 
@@ -1100,5 +1101,125 @@ example : ctrObfuscate toyCrypto [()] 0 [1] 31 () = .err .keyLen :=
   obfuscate_rejects_keylen_ctr toyCrypto [()] 0 [1] 31 () (by decide)
 example : gcmObfuscate toyCrypto [()] 0 [1] 33 () = .err .keyLen :=
   obfuscate_rejects_keylen_gcm toyCrypto [()] 0 [1] 33 () (by decide)
+
+/-! ## several encodings alive at once (`CJ/Model/Alive.lean`)
+
+The round-trip theorems above speak about values.  A caller of the Go code holds *objects*: the slice
+an encoder returned is a view of a buffer.  The statements below are about histories of a caller that
+keeps every result and copies nothing: any interleaving of encoder calls and of decoding what call `j`
+returned. -/
+
+open CJ.Alive in
+/-- an encoder that takes its output object fresh: whatever the history, decoding what call `j`
+returned is decoding the encoding of the `j`-th value - objects behave like values -/
+theorem held_encodings_are_values {α β : Type} (enc : α → β) (dec : β → Option α) (ops : List (Op α)) :
+    (run .fresh enc dec ops).out = spec enc dec ops :=
+  runFrom_fresh enc dec ops {} [] ⟨rfl, rfl⟩
+
+open CJ.Alive in
+theorem specFrom_roundtrip {α β : Type} (enc : α → β) (dec : β → Option α) (law : ∀ x, dec (enc x) = some x)
+    (ops : List (Op α)) : ∀ xs out, specFrom enc dec xs out ops = specFrom id some xs out ops := by
+  induction ops with
+  | nil => intro _ _; rfl
+  | cons o r ih =>
+    intro xs out
+    cases o with
+    | enc x => simpa [specFrom] using ih _ _
+    | dec j => simp [specFrom, law, ih]
+
+open CJ.Alive in
+/-- … hence, for a codec that round-trips, every kept encoding decodes to its own value however many
+other values were encoded in between and in whatever order they are decoded (`spec id some` answers
+`D j` with the `j`-th encoded value) -/
+theorem held_encodings_survive {α β : Type} (enc : α → β) (dec : β → Option α) (law : ∀ x, dec (enc x) = some x)
+    (ops : List (Op α)) : (run .fresh enc dec ops).out = spec id some ops := by
+  rw [held_encodings_are_values]
+  exact specFrom_roundtrip enc dec law ops [] []
+
+open CJ.Alive in
+/-- the instance for TXT character strings (a total encoder); the other codecs instantiate `law` with
+their round-trip theorems in the same way -/
+theorem held_txt_encodings_survive (ops : List (Op Bytes)) :
+    (run .fresh encodeTXT (fun b => match decodeTXT b with | .ok p => some p | _ => none) ops).out = spec id some ops :=
+  held_encodings_survive _ _ (fun p => by simp [txt_roundtrip]) ops
+
+open CJ.Alive in
+/-- the fresh object is what the theorems rest on: an encoder that takes its buffer from a pool and
+puts it back on return hands out a view of an object the next call writes - the first encoding, still
+held, decodes to the second value -/
+theorem pooled_buffer_overwrites_held_encoding :
+    (run .pooled (id : Nat → Nat) some [.enc 1, .enc 2, .dec 0, .dec 1]).out = [some 2, some 2] ∧
+    (run .fresh (id : Nat → Nat) some [.enc 1, .enc 2, .dec 0, .dec 1]).out = [some 1, some 2] := by decide
+
+/-! ## the letter case of the query name
+
+DNS names compare case-insensitively (RFC 1035 §2.3.3, RFC 4343) and resolvers on the path rewrite the
+case of a query name (0x20 randomisation, normalisation).  `CaseEq n m`: the two names are the same
+name for DNS. -/
+
+/-- equal up to ASCII letter case, label by label -/
+def CaseEq (n m : Name) : Prop := n.map (·.map toLowerB) = m.map (·.map toLowerB)
+
+set_option maxRecDepth 8000 in
+theorem toUpperB_toLowerB (b : UInt8) : toUpperB (toLowerB b) = toUpperB b ∧ toLowerB (toUpperB b) = toLowerB b := by
+  have key : ∀ k : Fin 256, toUpperB (toLowerB (UInt8.ofNat k.val)) = toUpperB (UInt8.ofNat k.val) ∧
+      toLowerB (toUpperB (UInt8.ofNat k.val)) = toLowerB (UInt8.ofNat k.val) := by decide
+  have := key ⟨b.toNat, b.toNat_lt⟩
+  simpa using this
+
+theorem upper_of_lower_eq (a b : Bytes) (h : a.map toLowerB = b.map toLowerB) : a.map toUpperB = b.map toUpperB := by
+  have e : ∀ l : Bytes, l.map toUpperB = (l.map toLowerB).map toUpperB := by
+    intro l; simp [List.map_map, Function.comp_def, (toUpperB_toLowerB _).1]
+  rw [e a, e b, h]
+
+/-- the responder's extraction of the base32 text is a function of the DNS name, not of its spelling -/
+theorem recvEncoded_case_insensitive (n m dom : Name) (h : CaseEq n m) : recvEncoded n dom = recvEncoded m dom := by
+  unfold CaseEq at h
+  have hl : n.length = m.length := by simpa using congrArg List.length h
+  have hd : ∀ k, (n.drop k).map (·.map toLowerB) = (m.drop k).map (·.map toLowerB) := by
+    intro k; rw [List.map_drop, List.map_drop, h]
+  have ht : ∀ k, ((n.take k).flatten).map toUpperB = ((m.take k).flatten).map toUpperB := by
+    intro k
+    apply upper_of_lower_eq
+    have : (n.take k).map (·.map toLowerB) = (m.take k).map (·.map toLowerB) := by
+      rw [List.map_take, List.map_take, h]
+    simpa [List.map_flatten] using congrArg List.flatten this
+  unfold recvEncoded trimSuffix
+  simp only [hl, hd]
+  split
+  · rfl
+  · split
+    · have := ht (m.length - dom.length)
+      simpa [List.map_flatten, List.map_take] using this
+    · rfl
+
+/-- every spelling a path may produce is covered: e.g. the name in upper case throughout -/
+theorem caseEq_upper (n : Name) : CaseEq (n.map (·.map toUpperB)) n := by
+  unfold CaseEq
+  simp [List.map_map, Function.comp_def, (toUpperB_toLowerB _).2]
+
+theorem caseEq_lower (n : Name) : CaseEq (n.map (·.map toLowerB)) n := by
+  unfold CaseEq
+  have e : ∀ b, toLowerB (toLowerB b) = toLowerB b := by
+    intro b
+    have := (toUpperB_toLowerB (toLowerB b)).2
+    rw [(toUpperB_toLowerB b).1, (toUpperB_toLowerB b).2] at this
+    exact this.symm
+  simp [List.map_map, Function.comp_def, e]
+
+/-- the request path through a case-rewriting resolver: whatever spelling `m` of the query name
+arrives, the responder hands the base32 decoder the text the requester encoded -/
+theorem query_payload_roundtrip_recased (enc : Bytes → Bytes) (dec : Bytes → Option Bytes) (L : B32Laws enc dec)
+    (p : Bytes) (dom n m : Name) (h : sendName (enc p) dom = .ok n) (hc : CaseEq m n) :
+    (recvEncoded m dom).bind dec = some p := by
+  rw [recvEncoded_case_insensitive m n dom hc]
+  exact query_payload_roundtrip enc dec L p dom n h
+
+/-- a decoder that does not fold case (the lower-case alphabet applied to the labels as they arrive)
+is not a function of the DNS name: the same name in two spellings gives two texts -/
+theorem unfolded_text_depends_on_spelling :
+    CaseEq [[0x4d, 0x66], [0x74]] [[0x6d, 0x66], [0x74]] ∧
+    (trimSuffix [[0x4d, 0x66], [0x74]] [[0x74]]).map List.flatten ≠ (trimSuffix [[0x6d, 0x66], [0x74]] [[0x74]]).map List.flatten := by
+  refine ⟨by unfold CaseEq; decide, by decide⟩
 
 end CJ.Props.C15
